@@ -8,7 +8,7 @@ def check(run, replay=None):
         rule=("secrets {0,1,q-1,random} x base points {G, random, identity} x contexts (session ids of length 0/1/32/100, "
               "party, action, label); per case the honest proof is compared byte for byte (t, s) with the model run on the "
               "same nonce, and the verdicts of honest + mutated verifications (other statement, base, commitment, response "
-              "incl. single-bit flips, every context field) are compared with the model; non-trivial = mutated verifications"),
+              "incl. single-bit flips, every context field) are compared with the model; non-trivial = mutated verifications Degenerate replacements: t = identity, s = 0, y = identity, t = y; last-byte flips of session id and action; party id + 2^8..2^56."),
         assumptions=["merlin framing is injective in (label, message) sequences (the model's oracle input is the structured "
                      "operation list)", "k256 implements a prime-order group (group_laws); primality of q is a premise of "
                      "dlog_context_binding", "rejection sentences are proved as 'accept => explicit oracle coincidence' "
